@@ -138,6 +138,9 @@ TIES = {
     "encode_stmt": {"sources": ["pyjelly/serialize/encode.py"], "unit": "encode", "gen": "EncodeGen", "tie": "EncodeStmtTie",
                     "needs": ["lookup_enc", "options", "encode"],
                     "theorems": ["source_encode_triple_is_model", "source_encode_quad_is_model"]},
+    # property C05 itself, about the translated writer and reader coupled as the wire couples them (no model in the statement)
+    "c05_source": {"sources": ["pyjelly/serialize/lookup.py", "pyjelly/parse/lookup.py"], "unit": "lookup_enc", "gen": "LookupEncGen", "tie": "C05Source",
+                   "needs": ["lookup_enc", "lookup_dec"], "props": ["C05"], "theorems": ["C05_source_mirror_all_histories"]},
 }
 
 
@@ -158,7 +161,7 @@ def _one_tie(unit: str, t: dict, repo: str) -> dict:
     tmpd = tempfile.mkdtemp(prefix="verif_tie_")
     os.mkdir(f"{tmpd}/gen")
     os.mkdir(f"{tmpd}/tie")
-    q = f"-Q model PJ.Model -Q tie PJ.Tie -Q {tmpd}/tie PJ.Tie -Q {tmpd}/gen PJ.Gen"
+    q = f"-Q model PJ.Model -Q proofs PJ.Proofs -Q tie PJ.Tie -Q {tmpd}/tie PJ.Tie -Q {tmpd}/gen PJ.Gen"
     try:
         chain = [(n, TIES[n]) for n in t["needs"]] + [(unit, t)]
         for u, tu in chain:
@@ -197,7 +200,7 @@ def source_ties(ctx, po: dict, pid: str) -> list[str]:
 
     repo = os.environ.get("VERIF_REPO", "/repo")
     anchors = set(anchor_files(pid))
-    units = [(u, t) for u, t in TIES.items() if anchors & set(t["sources"])]
+    units = [(u, t) for u, t in TIES.items() if anchors & set(t["sources"]) and pid in t.get("props", [pid])]
     broken_units = []
     if not units:
         return broken_units
